@@ -1178,7 +1178,7 @@ namespace bloch::compiler {
                     }
                     if (f.type.value == ValueType::Qubit ||
                         (!f.type.className.empty() && f.type.value == ValueType::Unknown &&
-                         f.type.className == "qubit")) {
+                         (f.type.className == "qubit" || f.type.className == "qubit[]"))) {
                         throw BlochError(ErrorCategory::Semantic, p->line, p->column,
                                          "default constructor cannot bind qubit fields");
                     }
